@@ -214,13 +214,6 @@ Fixpoint csg_off (c : csg R) (p : vec3 R) : bool :=
                          match l with [] => true | x :: r => csg_off x p && go r end) l
   end.
 
-Lemma forallb_map {A B} (f : A -> B) (g : B -> bool) l :
-  forallb g (map f l) = forallb (fun x => g (f x)) l.
-Proof. induction l as [|x r IH]; cbn; [reflexivity|]. now rewrite IH. Qed.
-Lemma existsb_map {A B} (f : A -> B) (g : B -> bool) l :
-  existsb g (map f l) = existsb (fun x => g (f x)) l.
-Proof. induction l as [|x r IH]; cbn; [reflexivity|]. now rewrite IH. Qed.
-
 Lemma eval_and l p : eval_csg (CAnd l) p = forallb (fun c => eval_csg c p) l.
 Proof. cbn [eval_csg]. induction l as [|x r IH]; cbn; [reflexivity|]. now rewrite <- IH. Qed.
 Lemma eval_or l p : eval_csg (COr l) p = existsb (fun c => eval_csg c p) l.
